@@ -685,3 +685,79 @@ Section InvAny.
     destruct (has_reg (objs iv)); split; reflexivity.
   Qed.
 End InvAny.
+
+Lemma map2_map_map {A B C D} (f : B -> C -> D) (g : A -> B) (h : A -> C) l :
+  map2 f (map g l) (map h l) = map (fun x => f (g x) (h x)) l.
+Proof. induction l as [|a l IH]; simpl; [reflexivity|]. rewrite IH. reflexivity. Qed.
+
+Local Open Scope R_scope.
+Section InvR.
+  Variable lnf : R -> R.
+  Notation O := (RL lnf).
+  Variable tp : T O.
+  Implicit Types (f : fit (T O)) (iv : inv (T O)).
+
+  (* s_r^T (H_r s_r) = sum over regularized i, j of s_i H_ij s_j *)
+  Lemma regularization_term_is_spec iv : inv_okb iv = true -> regularization_term iv = s_regularization_term iv.
+  Proof.
+    intros H. unfold regularization_term, s_regularization_term.
+    destruct (has_reg (objs iv)) eqn:G; cbn [negb].
+    2:{ rewrite (reg_indices_none _ G). reflexivity. }
+    rewrite reconstruction_reduced_is_restriction, regularization_matrix_reduced_is_principal by exact H.
+    unfold dotT, matvec, tabulate, Rset. rewrite map_map, map2_map_map. tR. rewrite !(sumT_RL lnf).
+    apply sumR_map_ext. intros i _. unfold dotT. rewrite map2_map_map. tR. rewrite !(sumT_RL lnf). rops.
+    rewrite <- sumR_map_scal. apply sumR_map_ext. intros j _. ring.
+  Qed.
+  (* values of the reconstruction at unregularized parameters (and the curvature matrix) play no role *)
+  Lemma regularization_term_ignores_unregularized iv iv' : inv_okb iv = true -> inv_okb iv' = true ->
+    objs iv = objs iv' -> blocks iv = blocks iv' ->
+    (forall i, In i (reg_indices (objs iv)) -> at_ (recon iv) i = at_ (recon iv') i) ->
+    regularization_term iv = regularization_term iv'.
+  Proof.
+    intros H H' EO EB ER. rewrite !regularization_term_is_spec by assumption.
+    unfold s_regularization_term, s_H. rewrite <- EO, <- EB. tR. rewrite !(sumT_RL lnf).
+    apply sumR_map_ext. intros i Hi. tR. rewrite !(sumT_RL lnf). apply sumR_map_ext. intros j Hj.
+    rewrite (ER i Hi), (ER j Hj). reflexivity.
+  Qed.
+
+  Lemma log_evidence_is_spec f iv : fit_okb f = true -> inversion f = Some iv -> inv_okb iv = true ->
+    fit_log_evidence tp f = Some (s_log_evidence tp f iv).
+  Proof.
+    intros H HI HV. unfold fit_log_evidence, s_log_evidence, log_evidence_from. rewrite HI. f_equal.
+    destruct (log_det_terms_are_restricted iv HV) as [E1 E2]. rewrite E1, E2.
+    rewrite (chi_squared_is_spec lnf f H), (noise_normalization_is_spec lnf tp f H).
+    destruct (has_reg (objs iv)) eqn:G.
+    - rewrite (regularization_term_is_spec iv HV). rops. lra.
+    - unfold regularization_term, s_log_likelihood. rewrite G. cbn [negb]. rops. lra.
+  Qed.
+  Lemma log_likelihood_with_regularization_is_spec f iv :
+    fit_okb f = true -> inversion f = Some iv -> inv_okb iv = true ->
+    fit_log_likelihood_with_regularization tp f = Some (s_log_likelihood_with_regularization tp f iv).
+  Proof.
+    intros H HI HV. unfold fit_log_likelihood_with_regularization, s_log_likelihood_with_regularization,
+      log_likelihood_with_regularization_from. rewrite HI. f_equal.
+    rewrite (chi_squared_is_spec lnf f H), (noise_normalization_is_spec lnf tp f H), (regularization_term_is_spec iv HV).
+    rops. lra.
+  Qed.
+  Definition fit_inv_okb f : bool := match inversion f with Some iv => inv_okb iv | None => true end.
+  Lemma figure_of_merit_is_spec f : fit_okb f = true -> fit_inv_okb f = true ->
+    fit_figure_of_merit tp f = Some (s_figure_of_merit tp f).
+  Proof.
+    intros H HV. unfold fit_figure_of_merit, s_figure_of_merit, fit_inv_okb in *.
+    destruct (inversion f) as [iv|] eqn:HI.
+    - apply log_evidence_is_spec; assumption.
+    - rewrite (log_likelihood_is_spec lnf tp f H). reflexivity.
+  Qed.
+End InvR.
+
+(* the figure of merit is the evidence when an inversion is present and the likelihood otherwise (any NumOps) *)
+Lemma figure_of_merit_selection {O : NumOps} (tp : T O) (f : fit (T O)) :
+  fit_figure_of_merit tp f = if inversion f then fit_log_evidence tp f else Some (fit_log_likelihood tp f).
+Proof. unfold fit_figure_of_merit. destruct (inversion f); reflexivity. Qed.
+Lemma evidence_present_iff_inversion {O : NumOps} (tp : T O) (f : fit (T O)) :
+  (fit_log_evidence tp f = None <-> inversion f = None) /\
+  (fit_log_likelihood_with_regularization tp f = None <-> inversion f = None).
+Proof.
+  unfold fit_log_evidence, fit_log_likelihood_with_regularization.
+  destruct (inversion f); split; split; intros; try discriminate; reflexivity.
+Qed.
